@@ -30,7 +30,10 @@ def prep_refdecoders(tree, scratch, env):
         "package arm64asm\n\n"
         "// accessors for unexported fields (reference copy only)\n"
         "func ImmShiftParts(is ImmShift) (uint16, uint8) { return is.imm, is.shift }\n"
-        "func MemImmOffset(m MemImmediate) int32 { return m.imm }\n")
+        "func MemImmOffset(m MemImmediate) int32 { return m.imm }\n"
+        "// FormatMasks lists (mask, value) of every entry of the reference's instruction format table\n"
+        "func FormatMasks() [][2]uint32 {\n\tout := make([][2]uint32, 0, len(instFormats))\n\tfor i := range instFormats {\n"
+        "\t\tout = append(out, [2]uint32{instFormats[i].mask, instFormats[i].value})\n\t}\n\treturn out\n}\n")
 
 
 def prep_emitters(tree, scratch, env):
@@ -215,11 +218,13 @@ PROPS["C17"] = {
     "exhaustive_units": ["words"], "exhaustive_tiers": ("thorough",), "disjoint_shard_units": ["words"],
     "rule": "thorough: all 2^32 instruction words (4 sequential shards, each internally parallel). quick: a stride-4099 sample of the word space "
             "(offset by the seed) outside the branch classes plus the branch-class encodings goom's extent/wrapper scans rely on (B, BL, B.cond exhaustively; "
-            "CBZ/CBNZ, TBZ/TBNZ, ADR/ADRP, LDR literal, BR/BLR/RET strided over their free bits). Oracle: Decode and Inst.String never panic; outside "
+            "CBZ/CBNZ, TBZ/TBNZ, ADR/ADRP, LDR literal, BR/BLR/RET strided over their free bits) plus, for every entry of the reference's format "
+            "table (~1300 mask/value pairs), 4000 rapid-seeded words with random free bits whose 5/6-bit fields are forced to all-zeros or all-ones a quarter "
+            "of the time each (alias decisions hang on ZR/SP registers and on boundary immediates). Oracle: Decode and Inst.String never panic; outside "
             "(w&0xFFD80000)==0xD5080000 both decoders agree on error-vs-instruction, Op and every PC-relative argument. Every enumerated word is distinct "
             "by construction; a word is non-trivial when it decodes to an instruction.",
     "assumptions": ["reference = toolchain's newer arm64asm copy (shared ancestry)", "SYS/SYSL encodings are checked for totality only"],
-    "floors": [("words", "with-pcrel-argument", 100000)],
+    "floors": [("words", "with-pcrel-argument", 100000), ("words", "per-format-samples", 1000000)],
 }
 
 PROPS["C18"] = {
@@ -233,11 +238,13 @@ PROPS["C18"] = {
             "bool, structs incl. unexported fields and float/slice/map fields, arrays, slices, maps, pointers incl. ** and rings, interface{} and error "
             "holding those, funcs); values come from boundary-biased value codes; y is independent, a deep copy of x (distinct storage), the very "
             "same value, or a deep copy with one leaf changed minimally (integer +-1, adjacent float, one character); nil patterns are given typed and untyped. Oracle: Go ==/DeepEqual/pointee/identity as the statement lists them, symmetry, "
-            "Any, In == union of Equals, stable on re-evaluation, no panic. NaN, mixed signed zeros and interfaces of different dynamic types are "
+            "Any, In == union of Equals, stable on re-evaluation - also when the same expression object is next evaluated on a prefix/extension of the same slice or on "
+            "the same pointer/slice/map after its referent was changed in place (answers must equal those of a freshly built expression) - and no panic. NaN, mixed signed zeros and interfaces of different dynamic types are "
             "generated and counted but not judged against Go equality. Non-trivial: a judged pair not built from two zero values; distinct by "
             "(type, x code, y code, relation, nil form).",
     "assumptions": ["arguments are presented to Eval as reflect.Values of the declared parameter type, as goom's own matcher does"],
-    "floors": [("pairs", "equal-pairs", 2000), ("pairs", "unequal-pairs", 2000), ("pairs", "in-with->=2-alternatives", 2000), ("pairs", "neighbour-pairs", 2000)],
+    "floors": [("pairs", "equal-pairs", 2000), ("pairs", "unequal-pairs", 2000), ("pairs", "in-with->=2-alternatives", 2000), ("pairs", "neighbour-pairs", 2000),
+               ("pairs", "aliased-input-series", 500), ("pairs", "mutated-referent-re-evaluated", 500)],
 }
 
 PROPS["C10"] = {
@@ -248,8 +255,12 @@ PROPS["C10"] = {
          "timeout": {"quick": 300, "thorough": 1800}, "shards": {"quick": 1, "thorough": 2}},
         {"name": "pie", "pkg": "./zverif/c10", "run": "^TestVerifC10$", "env": {"VERIF_C10_MODE": "pie"}, "build_flags": ["-buildmode=pie"],
          "timeout": {"quick": 300, "thorough": 1800}, "shards": {"quick": 1, "thorough": 2}},
+        {"name": "external", "pkg": "./zverif/c10", "run": "^TestVerifC10$", "env": {"VERIF_C10_MODE": "external"}, "build_flags": ["-ldflags=-linkmode=external"],
+         "timeout": {"quick": 300, "thorough": 1800}, "shards": {"quick": 1, "thorough": 2}},
+        {"name": "external-stripped", "pkg": "./zverif/c10", "run": "^TestVerifC10$", "env": {"VERIF_C10_MODE": "external-stripped"},
+         "build_flags": ["-ldflags=-linkmode=external -s"], "timeout": {"quick": 300, "thorough": 1800}, "shards": {"quick": 1, "thorough": 2}},
     ],
-    "rule": "three builds of the same test binary (default, -ldflags=-s, -buildmode=pie). Inputs: every function name of the binary's pclntab, every OBJECT "
+    "rule": "five builds of the same test binary (default, -ldflags=-s, -buildmode=pie, external linking, external linking stripped). Inputs: every function name of the binary's pclntab, every OBJECT "
             "symbol of its .symtab plus harness-owned variables in .data/.bss/.noptrdata/.noptrbss whose addresses are known as &v, and rapid-generated "
             "near-miss names (drop/insert/flip a character, strip or swap the package path, add (*T)., prefixes, suffixes) and fresh names. Oracle from "
             "independent sources: pclntab entry + load slide (from /proc/self/maps), runtime.FuncForPC(addr).Entry()==addr and its name, .symtab FUNC value, "
@@ -265,6 +276,8 @@ PROPS["C03"] = {
     "units": [
         {"name": "static", "pkg": "./internal/patch", "run": "^TestVerifC03Static$", "timeout": {"quick": 400, "thorough": 2400},
          "shards": {"quick": 1, "thorough": 4}},
+        {"name": "tight", "pkg": "./internal/patch", "run": "^TestVerifC03Tight$", "timeout": {"quick": 400, "thorough": 2400},
+         "shards": {"quick": 1, "thorough": 2}},
         {"name": "dynamic", "pkg": "./zverif/c03", "run": "^TestVerifC03Dynamic$", "timeout": {"quick": 400, "thorough": 2400},
          "shards": {"quick": 1, "thorough": 12}},
     ],
@@ -272,13 +285,16 @@ PROPS["C03"] = {
             "+1GiB and near +2GiB; goom's own fixRelativeAddr / fixOriginFuncToTrampoline build the trampoline, which is validated with the reference decoder "
             "(same instructions, same absolute targets, trailing immediates kept, jump back to original+prefix, no branch into the overwritten bytes, "
             "refusals leave function and placeholder unchanged). Non-trivial: a prefix with a PC-relative operand or a widened branch, or a refusal; "
-            "distinct by (function, placeholder address). dynamic half: a generated zoo of 20 prologue shapes (RIP-relative load/store/compare with and "
+            "distinct by (function, placeholder address). tight placeholders: for a sample of functions the bytes their trampoline needs are computed and "
+            "placeholders of need-4..need+3 bytes, each followed directly by a neighbour function, are offered: too small ones must be refused unchanged, "
+            "accepted ones must not change a byte of the neighbour. dynamic half: a generated zoo of 20 prologue shapes (RIP-relative load/store/compare with and "
             "without immediates, call-only bodies, tiny loops, huge frames, float constants, jump tables, spills) plus the 120 corpus functions, mocked with "
             "their origin placeholder and a forwarding callback; the written placeholder bytes are validated statically first (never executed if "
             "unfaithful), then the mocked function is called from goroutines of generated stack depth 0..700 and must yield the un-mocked function's "
             "result and side effects with the callback running exactly once; refused applies leave both byte ranges unchanged and the function unmocked.",
     "assumptions": ["reference decoder is the toolchain's x86asm copy", "placeholders lie within +-2GiB of the function (they are functions of the same text segment)"],
-    "floors": [("static", "accepted", 5000), ("static", "refused", 20), ("dynamic", "origin-call", 500), ("dynamic", "origin-call/at-generated-depth", 50)],
+    "floors": [("static", "accepted", 5000), ("static", "refused", 20), ("dynamic", "origin-call", 500), ("dynamic", "origin-call/at-generated-depth", 50),
+               ("tight-placeholders", "refused-too-small", 1000), ("tight-placeholders", "accepted", 1000)],
 }
 
 PROPS["C01"] = {
@@ -324,14 +340,14 @@ PROPS["C06"] = {
     ],
     "rule": "methods: rapid histories (mock by callback, stub by Return, call, call-every-method-of-the-type-and-its-neighbour-on-every-instance, reset) over "
             "12 generated struct types (8 exported, 4 unexported; 4..7 methods each with pointer/value receivers, exported/unexported names and the prefix "
-            "family Get/GetX/GetXY/get), 5 instances per type (heap, static, embedded), mocked through Struct.Method, Struct.ExportMethod(.As) and "
+            "family Get/GetX/GetXY/get), 5 instances per type (heap, static, embedded), plus types of the same names (T00, T01, t08) in a second package used through the same builder, mocked through Struct.Method, Struct.ExportMethod(.As) and "
             "Pkg.ExportStruct.Method(.As). Oracle: model of which (type, method) is mocked; the callback's first argument is the very instance (pointer "
             "identity / bit-exact copy), every other method of every type runs its original body exactly once per call. generics: Return-stubs on "
             "methods/functions of G[T] for T in int,int64,string,*GA,*GB,GS; instantiations of a different GC shape and other methods must be unaffected. "
             "Non-trivial: a history with a call on a mocked method or a call-all sweep while something is mocked; distinct by the op/tag sequence.",
     "assumptions": ["Struct(x) is given the receiver kind the method declares (README)", "callbacks on generic methods/functions are an open known finding: only Return-stubs are judged there"],
     "floors": [("methods", "call/mocked/value-receiver", 50), ("methods", "call/mocked/unexported-method", 50), ("methods", "call/mocked/unexported-type", 30),
-               ("methods", "callall", 200)],
+               ("methods", "callall", 200), ("methods", "operation-on-same-named-type-of-another-package", 100)],
 }
 
 PROPS["C07"] = {
@@ -349,7 +365,8 @@ PROPS["C07"] = {
             "an unmocked-slot call, a Reset of a mocked variable or a drop+GC; distinct by (interface, op sequence).",
     "assumptions": ["process death (e.g. a stub jumping through collected memory) is turned into a violation by re-executing the journalled case"],
     "floors": [("histories", "call/unmocked-slot-panics", 100), ("histories", "call/mocked-slot-after-gc", 100),
-               ("histories", "call/mocked-slot-after-builder-dropped", 50), ("histories", "variable-with->=2-mocked-slots", 100)],
+               ("histories", "call/mocked-slot-after-builder-dropped", 50), ("histories", "variable-with->=2-mocked-slots", 100),
+               ("histories", "instruction-through-a-kept-method-handle", 50)],
 }
 
 PROPS["C04"] = {
@@ -376,7 +393,7 @@ PROPS["C05"] = {
         {"name": "concurrent", "pkg": "./zverif/stubs", "run": "^TestVerifC05Concurrent$", "race": True, "timeout": {"quick": 300, "thorough": 2400},
          "shards": {"quick": 1, "thorough": 4}},
     ],
-    "rule": "sequential: the C04 configurations with a result sequence of 1..8 distinct elements on the default and on every clause (Return+AndReturn or "
+    "rule": "sequential: the C04 configurations with a result sequence of 1..8 elements (distinct, or with runs of repeated neighbouring values) on the default and on every clause (Return+AndReturn or "
             "Returns form) and 5..60 calls selecting stubs in generated interleavings; oracle: one cursor per stub in the reference model (k-th selecting "
             "call gets element k, later ones the last, stubs advance independently). concurrent (race build): one stub with 2..64 elements, 2..16 "
             "callers behind a spin barrier with generated yields; oracle sound for any schedule: every value is an element, positions never decrease "
@@ -384,7 +401,7 @@ PROPS["C05"] = {
             "Non-trivial (sequential): >=2 stubs with >=2 elements and a call beyond a tail; (concurrent) every round; distinct by configuration and "
             "decision sequence / by (length, goroutines, calls, yield).",
     "assumptions": ["the concurrent half is a seeded stress search: the harness does not own the scheduler"],
-    "floors": [("sequential", "sequence/beyond-tail", 500), ("concurrent", "rounds-running-past-the-tail", 50)],
+    "floors": [("sequential", "sequence/beyond-tail", 500), ("sequential", "sequence/with-repeated-neighbours", 300), ("concurrent", "rounds-running-past-the-tail", 50)],
 }
 
 PROPS["C09"] = {
@@ -400,8 +417,8 @@ PROPS["C09"] = {
             "dynamic types intact, stand-in bytes / address identical); a wrong-size value makes Return panic. conditions: nil / typed nil / "
             "stand-in values given to When match equal arguments of the declared type and not different ones. Distinct by (function, supply kinds, codes).",
     "assumptions": ["same-size values of a different non-struct type are outside the enumerated guarantees"],
-    "floors": [("results", "rejected-wrong-size", 300), ("results", "delivered/untyped-nil/func", 20), ("results", "delivered/standin/struct", 50),
-               ("results", "delivered/standin-ptr/ptr", 5), ("results", "delivered/untyped-nil/interface", 50)],
+    "floors": [("results", "rejected-wrong-size", 300), ("results", "delivered/untyped-nil/func", 8), ("results", "delivered/standin/struct", 50),
+               ("results", "delivered/standin-ptr/ptr", 5), ("results", "delivered/untyped-nil/interface", 50), ("results", "standin/pointer-shaped-struct", 20)],
 }
 
 PROPS["C12"] = {
@@ -436,14 +453,14 @@ PROPS["C13"] = {
             "(ArgsNotMatch, ReturnsNotMatch, IllegalParamType); afterwards the executable image is unchanged, the target runs its original body, the "
             "interface variable is untouched and Reset does not panic. Every applicable mistake is non-trivial; distinct by (class, target, position).",
     "assumptions": ["Return() with no values at all is not generated (goom treats it as 'no default yet'; see DESIGN section 5)"],
-    "floors": [("mistakes", "class/when-too-few", 30), ("mistakes", "class/ret-too-few", 30), ("mistakes", "class/cb-param-size", 50), ("mistakes", "class/iface-cb-too-few", 30),
+    "floors": [("mistakes", "class/when-too-few", 30), ("mistakes", "class/ret-too-few", 20), ("mistakes", "class/cb-param-size", 50), ("mistakes", "class/iface-cb-too-few", 30),
                ("mistakes", "class/returns-size", 30), ("mistakes", "class/method-returns-size", 20), ("mistakes", "class/iface-returns-size", 10)],
 }
 
 PROPS["C02"] = {
     "prepare": [prep_corpus],
     "units": [
-        {"name": "histories", "pkg": "./zverif/c02", "run": "^TestVerifC02$", "timeout": {"quick": 400, "thorough": 2400},
+        {"name": "histories", "pkg": "./zverif/c02", "run": "^TestVerifC02", "timeout": {"quick": 400, "thorough": 2400},
          "shards": {"quick": 1, "thorough": 16}},
     ],
     "rule": "rapid histories of 2..25 operations (Apply, Return, Origin+Apply with a forwarding callback, Cancel of one handle, Reset, double Reset, calls of "
@@ -452,10 +469,12 @@ PROPS["C02"] = {
             "the 13 entry bytes of targets with a live mocker and the bodies of used origin placeholders; unmocked targets have pristine entry bytes and "
             "run their original body, unambiguously mocked targets show the entry jump and behave by their latest mock; where two owners shared a "
             "target and one restored, only the byte invariant and 'pristine bytes <=> original behaviour' are asserted. After all builders are reset "
-            "the image is pristine outside placeholder bodies. Non-trivial: a restore after a re-apply or with a second owner; distinct by window and op sequence.",
+            "the image is pristine outside placeholder bodies. A second unit puts a refused apply (origin placeholder on a zoo prologue goom cannot relocate) "
+            "into histories of apply/stub/reset/cancel by two builders: a refusal after everything was reset must leave pristine entry bytes. Non-trivial: a restore after a re-apply or with a second owner; distinct by window and op sequence.",
     "assumptions": ["calls that reach an origin placeholder run with stack headroom and GC paused (open finding C03/origin-morestack-reentry is excluded by construction)"],
     "floors": [("histories", "history/restore-after-reapply-or-second-owner", 100), ("histories", "history/two-owners-on-one-target", 50),
-               ("histories", "history/with-origin-placeholder", 50), ("histories", "instruction-through-a-kept-handle", 100)],
+               ("histories", "history/with-origin-placeholder", 50), ("histories", "instruction-through-a-kept-handle", 100),
+               ("refused-applies", "refused-apply-after-all-mocks-were-reset", 50), ("refused-applies", "refused-apply-over-a-live-mock", 50)],
 }
 
 PROPS["C14"] = {
@@ -465,18 +484,22 @@ PROPS["C14"] = {
          "shards": {"quick": 1, "thorough": 8}, "wrap": strace_wrap, "post": c14_post},
         {"name": "real", "pkg": "./internal/patch", "run": "^TestVerifC14Real$", "timeout": {"quick": 400, "thorough": 2400},
          "shards": {"quick": 1, "thorough": 4}, "wrap": strace_wrap, "post": c14_post},
+        {"name": "placeholder-bounds", "pkg": "./internal/patch", "run": "^TestVerifC03Tight$", "env": {"VERIF_TIGHT_PROP": "C14"},
+         "timeout": {"quick": 400, "thorough": 2400}, "shards": {"quick": 1, "thorough": 2}},
     ],
     "rule": "synthetic: rapid lays out a target 'function' (1..200 bytes of straight-line code ending in RET, 0..40 INT3 of padding, a neighbour function "
             "after it) at a generated page offset - including entries 1..13 bytes before a page end - in a never-reused R-X mapping and drives goom's "
             "PtrTrampoline/Guard.Apply/Unpatch and raw memory.WriteTo with generated offsets/lengths across page boundaries; real: every function of "
             "ballast packages (go/types, net/http, math/big, text/template, ...) of the test binary is patched and unpatched with the whole text diffed "
             "at each step. Oracle: accepted => exactly the 13 entry bytes differ and hold the jump, neighbours/padding/other pages untouched, too-short "
-            "functions refused, unpatch restores byte-for-byte, /proc/self/maps shows r-xp. Both units run under strace: every mprotect on the image or "
+            "functions refused, unpatch restores byte-for-byte, /proc/self/maps shows r-xp. A third unit offers origin placeholders of need-4..need+3 bytes directly followed by a neighbour function: the trampoline write must stay "
+            "inside the placeholder's own body or be refused. The first two units run under strace: every mprotect on the image or "
             "the synthetic arena keeps PROT_EXEC and the last protection of each page is R+X. Non-trivial: entry within 13 bytes of a page end, extent "
             "within +-3 of 13, or a write crossing a page; every patched real function; distinct by layout / function name / page.",
     "assumptions": ["a tiny body glued to its neighbour without padding is not generated (no Go binary contains one)", "ballast functions are never executed by the harness or goom"],
     "floors": [("synthetic", "accepted/entry-within-13-bytes-of-page-end", 200), ("synthetic", "refused/too-short", 100), ("synthetic", "write-crossing-a-page-boundary", 300),
-               ("real-binary", "patched-and-restored", 1000), ("strace-synthetic", "mprotect-on-synthetic-arena", 1000), ("strace-real", "mprotect-on-text", 1000)],
+               ("real-binary", "patched-and-restored", 1000), ("strace-synthetic", "mprotect-on-synthetic-arena", 1000), ("strace-real", "mprotect-on-text", 1000),
+               ("tight-placeholders", "accepted", 1000), ("tight-placeholders", "refused-too-small", 1000)],
 }
 
 PROPS["C11"] = {
@@ -505,7 +528,7 @@ PROPS["C19"] = {
          "shards": {"quick": 1, "thorough": 16}},
     ],
     "rule": "rapid draws a scenario (corpus function mocked by callback / Return / reset and called in several forms; variadic functions with When/Any/In "
-            "clauses, result sequences and a variadic callback; a struct method by callback and Return; an interface variable with methods mocked by "
+            "clauses, result sequences and a variadic callback; a struct method by callback and Return; one live mocker re-applied with sibling closures, bound method values and MakeFunc callbacks; an interface variable with methods mocked by "
             "Apply and As().Return plus an unmocked slot; a callback that panics with a string / error / int / value whose String() panics / nil "
             "dereference; a function over hostile values: rings, nil and typed-nil interfaces, errors whose Error() dereferences nil, Stringers that "
             "panic, structs with unexported pointer/interface/func fields, 200000-element slices, nil **int; and a second one over arrays passed by value ([64]byte, [40]int, "
@@ -514,5 +537,5 @@ PROPS["C19"] = {
             "(calls, arguments recorded by callbacks, results, panic classes; values by content) are identical. Every scenario is non-trivial; "
             "distinct by (kind, target, value codes).",
     "assumptions": ["self-containing slices/maps reachable through interface{} are not generated (fmt itself overflows the stack on them)"],
-    "floors": [("scenarios", "scenario/hostile", 30), ("scenarios", "scenario/hostile2", 20), ("scenarios", "scenario/iface", 15), ("scenarios", "transcripts-with-a-panic", 10), ("scenarios", "compared-with-GOOM_DEBUG-child", 5)],
+    "floors": [("scenarios", "scenario/hostile", 30), ("scenarios", "scenario/hostile2", 20), ("scenarios", "scenario/reapply", 20), ("scenarios", "scenario/iface", 15), ("scenarios", "transcripts-with-a-panic", 10), ("scenarios", "compared-with-GOOM_DEBUG-child", 5)],
 }
